@@ -218,6 +218,43 @@ func runC05(w *World, r *Report) {
 	r.Rule("C05.passthrough-pairs-sided", "the stream<->value pairs a pass-through node derives from its neighbour (what graph.compile hands the checkpointer for that node's pending input / output) come from one side of the neighbour (shared with C04.role-uniform, package compose)", 5)
 	ruleRoleUniform(w, r, "C05.passthrough-pairs-sided", "compose")
 
+	r.Rule("C05.nothing-dropped-at-save", "no function of package compose deletes an entry from a checkpoint's tables (Channels, Inputs, SubGraphs, SkipPreHandler): a channel that holds no value can still hold the record of a predecessor that finished or was skipped without delivering data; what the interrupt handlers put in is what is stored (shared with C12)", 0)
+	{
+		nd := 0
+		for _, fn := range w.RepoFuncs("compose") {
+			instrs(fn, func(in ssa.Instruction) {
+				c, ok := in.(*ssa.Call)
+				if !ok || !isBuiltin(c, "delete") {
+					return
+				}
+				f, base := loadedField(c.Call.Args[0])
+				if f == nil || base == nil || namedOf(deref(base.Type())) != cpT {
+					return
+				}
+				nd++
+				r.Fail("C05.nothing-dropped-at-save", fmt.Sprintf("%s deletes from checkpoint.%s", w.fname(fn), f.Name()), c.Pos(), "an entry of the checkpoint is removed before it is stored ('nothing waits in this channel'): a DAG channel without a value still records which control predecessors are done or skipped and whether the node itself was skipped — after the resume a join waits for ever ('no tasks to execute') or a skipped node runs")
+			})
+		}
+		// … and nobody replaces a table wholesale: the fields of a checkpoint are assigned where it is built (the two
+		// interrupt handlers, on a fresh object) and nowhere else
+		for _, fn := range w.RepoFuncs("compose") {
+			for _, fw := range fieldWrites(fn) {
+				if fw.owner != cpT || fw.kind != "store" || freshBase(fw.base, 0) {
+					continue
+				}
+				top := topFunc(fn)
+				if top == hInt || top == hSub {
+					continue
+				}
+				nd++
+				r.Fail("C05.nothing-dropped-at-save", fmt.Sprintf("%s replaces checkpoint.%s", w.fname(fn), fw.field.Name()), fw.in.Pos(), "a table of the checkpoint is replaced on the way to the store (e.g. by a copy that keeps only the channels with a pending value): state that lives in a channel without a value — finished / skipped control predecessors, the skipped mark — is not written, and the channels read back are not the ones that existed at the interrupt")
+			}
+		}
+		if nd == 0 {
+			r.OK("C05.nothing-dropped-at-save", "no delete on / replacement of a checkpoint table in package compose", cpT.Obj().Pos(), "entries are only added, tables only assigned where the checkpoint is built")
+		}
+	}
+
 	// ---- load-errors-kept
 	r.Rule("C05.load-errors-kept", "on the save / load path (package compose, internal/serialization) a success return after an error-yielding call is reached only where that error was tested nil: a checkpoint that cannot be read back is an error of the resume, never 'no checkpoint, start over' (shared with C13.no-dropped-error)", 1)
 	{
